@@ -459,6 +459,9 @@ def harnesses(tier, seed):
 
 
 def run(tier, seed):
+    import json
+    from .. import crosshair_c07
+    from ..harness import VERIF
     errs = []
     doc_keys = set(documented_param_keys())
     missing_doc = sorted(k for k in doc_keys if k not in SPEC)
@@ -466,10 +469,37 @@ def run(tier, seed):
         errs.append("documented parameters missing from the golden table: %s" % missing_doc)
     if not documented_exit_names():
         errs.append("no soln.EXIT_* names found in docs/userguide.rst")
-    return run_property(
+    # second engine on the pure-Python parameter checks
+    try:
+        ch = crosshair_c07.run(30 if tier == 'quick' else 90)
+    except Exception as e:     # noqa
+        ch = {'confirmed': 0, 'inconclusive': 0, 'refuted': [], 'other_errors': ['crosshair did not run: %s' % e], 'conditions': 5}
+    print("[C07] crosshair on dfols/params.py: %d of %d conditions confirmed over all paths, %d inconclusive, %d refuted (%ss)" % (
+        ch['confirmed'], ch['conditions'], ch['inconclusive'], len(ch['refuted']), ch.get('seconds')))
+    ch_viol = []
+    for r_ in ch['refuted']:
+        if r_['reproduced']:
+            d_ = os.path.join(VERIF, 'replays', 'C07')
+            os.makedirs(d_, exist_ok=True)
+            fn = os.path.join(d_, 'crosshair-%s.json' % r_['function'])
+            with open(fn, 'w') as f:
+                json.dump(r_, f, indent=1)
+            ch_viol.append(os.path.relpath(fn, VERIF))
+        else:
+            print("[C07] INCONCLUSIVE crosshair counterexample did not reproduce: %s" % r_['call'])
+    if ch.get('other_errors'):
+        errs.append("crosshair: %s" % ch['other_errors'][0][:300])
+    rc = run_property(
         'C07', harnesses(tier, seed), tier, seed, extra_errors=errs,
         explanation="Symbolic execution (z3, linear integer/real arithmetic) of the real solve() from entry to its call of "
                     "solve_main, ParameterList and OptimResults, over all argument kinds and symbolic magnitudes; obligations: "
                     "no exception except ValueError for an unknown key, BAD(input) => input-error result with zero evaluations "
-                    "that prints, GOOD(input) => accepted, documented EXIT_* constants exposed. Replayed through dfols.solve.",
-        extra_cov={'documented_exit_constants': documented_exit_names(), 'parameter_keys': len(KEYS)})
+                    "that prints, GOOD(input) => accepted, documented EXIT_* constants exposed. Replayed through dfols.solve. "
+                    "Second engine: CrossHair on check_integer/check_float/check_bool, the defaults and the update-once rule.",
+        extra_cov={'documented_exit_constants': documented_exit_names(), 'parameter_keys': len(KEYS), 'crosshair': ch})
+    for fn in ch_viol:
+        print("VIOLATION property=C07 replay=%s" % fn)
+        print("  engine=crosshair")
+    if ch_viol and rc == 0:
+        rc = 1
+    return rc
